@@ -887,7 +887,7 @@ def _r9(ctx, pkg):
                 var[t.id] = p
             continue
         p = path_of(t) if isinstance(t, ast.Subscript) else None
-        if p is None or not p.startswith(USER_PATHS) or p == "chemistry.symbol":
+        if p is None or not p.startswith(USER_PATHS) or p == "chemistry.symbol" or p.startswith("chemistry.symbol."):
             continue
         n += 1
         state, why = _whole(st.value, mod)
@@ -1147,7 +1147,7 @@ def _seps_reader(h, opt, org, pkg=None):
         scopes = [n for n in _in_order(h) if isinstance(n, (ast.Assign, ast.For)) and at.get(id(n)) == opt]
     for sc in scopes:
         for c in ast.walk(sc.value if isinstance(sc, ast.Assign) else sc):
-            if isinstance(c, ast.Call) and isinstance(c.func, ast.Attribute) and c.func.attr in ("split", "rsplit") and c.args and isinstance(c.args[0], ast.Constant):
+            if isinstance(c, ast.Call) and isinstance(c.func, ast.Attribute) and c.func.attr in ("split", "rsplit", "partition", "rpartition") and c.args and isinstance(c.args[0], ast.Constant):
                 seps.add(c.args[0].value)
     return seps
 
@@ -1270,6 +1270,20 @@ def _r4_r6_r7(ctx, pkg):
         okk = all(len(n.targets[0].elts) == (3 if colon_cut(n.value)[0] == "partition" else 2) and not any(isinstance(e, ast.Starred) for e in n.targets[0].elts) for n in unp)
         ctx.check(okk, "R6", "--ode-modifier: key/value unpacking", (INIT, unp[0].lineno),
                   "`key, value = om.split(':')` raises on a surplus ':' instead of dropping text", found="; ".join(ast.unparse(n)[:60] for n in unp))
+    if not n6:
+        # .. spelled as an unpacking (`idx, expr = rm.split(":", 1)`), a partition, or inside a loop header: still a cut this rule has seen
+        for opt6 in ("ode-modifier", "rate-modifier"):
+            for sc in _option_scopes(pkg, ih, opt6)[0]:
+                for c in ast.walk(sc):
+                    cc = colon_cut(c)
+                    if cc is None:
+                        continue
+                    par = next((x for x in ast.walk(sc) if isinstance(x, ast.Assign) and x.value is c), None)
+                    keeps_tail = cc[0] == "partition" or cc[1]
+                    unpacked = par is not None and isinstance(par.targets[0], (ast.Tuple, ast.List)) and not any(isinstance(e_, ast.Starred) for e_ in par.targets[0].elts)
+                    if keeps_tail or unpacked:
+                        n6 += 1
+                        ctx.ok("R6", f"--{opt6}: cut at ':'", (INIT, c.lineno), "the text after the first ':' is kept whole (maxsplit / partition), or a surplus ':' raises (unpacking)")
     ctx.floor("R6", "free-text splits", n6, 1, (INIT, ih.lineno))
     # R7 the dependency list of an ODE-modifier term is a multiset (`[C C]` is second order in C): nothing that takes the option text
     # apart -- in handle() or in a helper it hands the text to -- identifies equal names (set / dict.fromkeys / a dict or set keyed by them)
